@@ -260,15 +260,36 @@ Ltac go_bool_atom c :=
   | _ => lazymatch type of c with bool => destruct c eqn:? end
   end.
 
-(** Innermost conditions first, so that no recorded equation contains an [if]. *)
+(** Every boolean connective of the goal becomes an [if]; then the
+    innermost conditions are split first, so that no recorded equation contains
+    an [if].  Nothing else is unfolded ([cbn beta iota zeta] only reduces
+    [if true ...] and anonymous loops applied to constructors). *)
 Ltac go_cases :=
+  unfold andb, orb, negb, Bool.eqb;
   repeat (match goal with
           | |- context [if ?c then _ else _] =>
               lazymatch c with
               | context [if _ then _ else _] => fail
               | _ => go_bool_atom c
               end
-          end; cbn [negb andb orb Bool.eqb]).
+          end; cbn beta iota zeta).
+
+(** Comparison atoms that are left in the goal outside any [if] (a boolean
+    that is returned as such). *)
+Ltac go_atoms :=
+  repeat (match goal with
+          | |- context [(?a =? ?b)%Z] => destruct (a =? b)%Z eqn:?
+          | |- context [(?a <? ?b)%Z] => destruct (a <? b)%Z eqn:?
+          | |- context [(?a <=? ?b)%Z] => destruct (a <=? b)%Z eqn:?
+          | |- context [(?a >? ?b)%Z] => destruct (a >? b)%Z eqn:?
+          | |- context [(?a >=? ?b)%Z] => destruct (a >=? b)%Z eqn:?
+          | |- context [(?a =? ?b)%N] => destruct (a =? b)%N eqn:?
+          | |- context [(?a <? ?b)%N] => destruct (a <? b)%N eqn:?
+          | |- context [(?a <=? ?b)%N] => destruct (a <=? b)%N eqn:?
+          | |- context [String.eqb ?a ?b] => destruct (String.eqb a b) eqn:?
+          | |- context [str_eqb ?a ?b] => destruct (str_eqb a b) eqn:?
+          | |- context [beq_bytes ?a ?b] => destruct (beq_bytes a b) eqn:?
+          end; cbn beta iota zeta).
 
 (** Boolean comparison atoms in hypotheses to (in)equalities for [lia]. *)
 Ltac go_arith :=
@@ -281,7 +302,18 @@ Ltac go_arith :=
          | H : (_ <? _)%N = _ |- _ => first [apply N.ltb_lt in H | apply N.ltb_ge in H]
          | H : (_ <=? _)%N = _ |- _ => first [apply N.leb_le in H | apply N.leb_gt in H]
          | H : (_ =? _)%N = _ |- _ => first [apply N.eqb_eq in H | apply N.eqb_neq in H]
+         | H : str_eqb _ _ = _ |- _ => first [apply str_eqb_eq in H | apply str_eqb_neq in H]
+         | H : go_str_eqb _ _ = _ |- _ => unfold go_str_eqb in H
+         | H : beq_bytes _ _ = _ |- _ => first [apply beq_bytes_spec in H | apply beq_bytes_neq in H]
+         | H : String.eqb _ _ = _ |- _ => first [apply String.eqb_eq in H | apply String.eqb_neq in H]
          end.
+
+(** A leaf of the case analysis: the two sides are the same term, or the
+    recorded conditions contradict each other. *)
+Ltac go_leaf :=
+  try reflexivity; go_arith; try congruence; try lia; exfalso; first [lia | congruence].
+
+Ltac go_solve := go_cases; go_atoms; go_leaf.
 
 (** * Panic conditions (checked mode of the translator): [true] = the
     expression does not panic. *)
